@@ -251,6 +251,17 @@ def parse_report(b):
     return cycles, graphs, bad
 
 
+def has_disc_nonleaf(c):
+    for f in ("rules", "rules1", "rules2"):
+        rules = c.get(f) or {}
+        for r in rules.values():
+            for d in r.get("disc", []):
+                t = rules.get(d) or {}
+                if t.get("req") or t.get("single") or t.get("follow") or t.get("br"):
+                    return True
+    return False
+
+
 def valid_cycle_in(lst, root, waits_on):
     """The structural clause of the property: starts at root, each key is followed by one it waits on, last repeats an earlier."""
     if not lst:
@@ -336,7 +347,8 @@ class Judge:
             lst = cycles[0]
             if not failed:
                 self.viol("cycle-reported-but-build-succeeded", "a cycle was reported but build() returned a value", c, ctx, broken="c07 oracle: failure on cycle")
-            if disc_cyclic and not lst:
+            root_waits = any(w == root for g in graphs for (a, w) in g)
+            if not lst and not root_waits and (disc_cyclic or has_disc_nonleaf(c)):
                 self.viol("disc-cycle-empty-list", "a cycle reachable only through the discovered dependency of a completed task is reported as an EMPTY key list "
                           "(findCycle searches from the requested key, which waits on nothing any more; resolveCycle's assert(!cycleList.empty()) would fire in a debug build)",
                           c, ctx, broken="c07 oracle: the reported list starts at the requested key and ends in a repeated key")
@@ -446,7 +458,10 @@ class Judge:
         for k in set(list(c["rules2"]) + list(rec1)):
             union[k] = (list(sem2.real.get(k, [])) if discipline else sem2.declared_all(k)) + rec1.get(k, []) + list(sem2.rule(k).get("disc", []))
         union_cyclic = graph_cyclic_from(union, c["root2"])
-        if discipline and v2 is None:
+        # single-use dependencies are removed from the records when a rule is scanned (cleanSingleUseDependencies): a cycle that needs such an
+        # edge of a rule that is not re-run is, by design, not looked at; the must-fail direction only uses the other edges
+        tracked = {k: [d for d in sem2.real.get(k, []) if d not in sem2.rule(k).get("single", [])] for k in sem2.real}
+        if discipline and v2 is None and graph_cyclic_from(tracked, c["root2"]):
             expect = "cycle"
         elif not union_cyclic:
             expect = "ok"
